@@ -30,6 +30,16 @@ THEOREMS = [
     "HedVerif.C05.strip_inlibrary",
     "HedVerif.C05.merged_keeps_everything",
     "HedVerif.C05.wiki_order_counterexample",
+    "HedVerif.C05.treeOrder_is_preorder",
+    "HedVerif.C05.preorder_of_groups",
+    "HedVerif.C05.line_roundtrip",
+    "HedVerif.C05.wiki_tags_roundtrip",
+    "HedVerif.C05.stripDesc_trimmed",
+    "HedVerif.C05.escape_roundtrip",
+    "HedVerif.C05.extend_here_counterexample",
+    "HedVerif.C05.nowiki_counterexample",
+    "HedVerif.C05.formats_agree",
+    "HedVerif.C05.formats_agree_merged",
     "HedVerif.C05.unit_classes_unmerged",
     "HedVerif.C05.unit_classes_merged",
     "HedVerif.C05.rooted_relevel",
@@ -633,6 +643,36 @@ def partner_classes_with_lib_units(schema):
             and any("inLibrary" in u.attributes for u in uc.units.values())]
 
 
+def _top(entry):
+    return entry.name.split("/", 1)[0]
+
+
+def tree_order_check(ctx, impl, case, before, after):
+    """`treeOrder` of the model = what `_finalize_section` makes of each top-level group that is not re-sorted
+    alphabetically (top tag without extensionAllowed).  `before` / `after`: tag entries in the order the loader saw
+    them / in the order of the finalized section."""
+    groups, actual, top_entry = {}, {}, {}
+    for e in before:
+        groups.setdefault(_top(e), []).append(e.name)
+    for e in after:
+        actual.setdefault(_top(e), []).append(e.name)
+        if "/" not in e.name:
+            top_entry[e.name] = e
+    tops = [t for t in groups if t in top_entry and not top_entry[t].has_attribute("extensionAllowed")]
+    if not tops:
+        return
+    ans = ctx.model.batch([{"op": "c05.treeorder", "names": groups[t]} for t in tops])
+    for t, a in zip(tops, ans):
+        ctx.count("tree-order-groups" + ("" if groups[t] == actual[t] else ":reordered"))
+        if a["order"] != actual[t]:
+            bad = next((i for i, (x, y) in enumerate(zip(a["order"], actual[t])) if x != y), None)
+            ctx.disagree("treeOrder = tag order of a not re-sorted top-level group after loading", dict(case, group=t),
+                         a["order"][bad] if bad is not None else len(a["order"]), actual[t][bad] if bad is not None else len(actual[t]))
+        if not (a["closed"] and a["preorder"] and a["fixed"]):
+            ctx.disagree("treeOrder result is a preorder listing and a fixed point (treeOrder_is_preorder)", dict(case, group=t),
+                         {k: a[k] for k in ("closed", "preorder", "fixed")}, True)
+
+
 def check_schema(ctx, impl, case, schema, source_vocab, formats, families=(), via_file=False, second_gen=False):
     """the property's oracle on one schema: save -> load -> ==, cross-format, independent XML walk; with
     `second_gen` also: the schema reloaded from its unmerged XML save is saved merged in every format and reloaded.
@@ -687,6 +727,9 @@ def check_schema(ctx, impl, case, schema, source_vocab, formats, families=(), vi
             # partner's), saved merged in every format and reloaded
             s2 = loaded["xml"]
             ordered = is_preorder(s2.tags.all_entries)
+            partner = impl.load_schema_version(schema.with_standard)
+            tree_order_check(ctx, impl, case, list(partner.tags.all_entries) +
+                             [e for e in schema.tags.all_entries if "inLibrary" in e.attributes], s2.tags.all_entries)
             ctx.count("second-generation:" + ("tree-order" if ordered else "NOT-tree-order"))
             for fmt in formats:
                 c2 = dict(case, fmt=fmt, merged=True, stage="reloaded from the unmerged XML save, then saved merged")
@@ -739,6 +782,7 @@ def wiki_sections(lines):
 
 
 def model_correspondence(ctx, impl, case, schema):
+    tree_order_check(ctx, impl, case, schema.tags.all_entries, schema.tags.all_entries)
     tags = [m_entry(e) for e in schema.tags.all_entries]
     others = [[m_entry(e) for e in d.values()] for d in (schema.unit_modifiers, schema.value_classes, schema.attributes,
                                                           schema.properties)]
